@@ -662,15 +662,16 @@ func childMain(op string) {
 			fmt.Printf("DONE %d\n", k)
 		}
 		fmt.Println("ALLDONE")
-	case op == "dup" || strings.HasPrefix(op, "hash:"):
+	case op == "dup" || op == "dupatt" || strings.HasPrefix(op, "hash:"):
 		var w Witness
 		if err := json.Unmarshal(in, &w); err != nil {
 			fmt.Fprintln(os.Stderr, "child: ", err)
 			os.Exit(3)
 		}
 		b := build(w.G)
-		if op == "dup" {
+		if op == "dup" || op == "dupatt" {
 			first := snapshot(expr.Dup(b.root.Type))
+			_ = expr.DupAtt(b.root)
 			for i := 0; i < 5; i++ {
 				if d := snapDiff(first, snapshot(expr.Dup(b.root.Type))); d != "" {
 					fmt.Println("RESULT unstable", d)
